@@ -4,9 +4,9 @@ package main
 
 import (
 	"fmt"
-	"regexp"
 	"go/types"
 	"math/big"
+	"regexp"
 	"strings"
 )
 
@@ -27,20 +27,20 @@ const (
 )
 
 type Val struct {
-	K   Kind
-	T   types.Type
-	S   string
-	Sl  [4]string // arr off len cap
-	F   []Val
-	L   *Loc
-	If  [2]string // tag pay
-	C   *big.Int
-	Clo *Closure
-	Why string // for KBad
+	K     Kind
+	T     types.Type
+	S     string
+	Sl    [4]string // arr off len cap
+	F     []Val
+	L     *Loc
+	If    [2]string // tag pay
+	C     *big.Int
+	Clo   *Closure
+	Why   string // for KBad
 	GSort string // KGhost
-	Lit  []Val // KSlice used only as the variadic operand of append: explicit elements, no heap backing
-	Own  bool  // KSlice: backing array freshly allocated here and referenced by this value only
-	From *Cell // value was loaded from this local cell (provenance for move semantics)
+	Lit   []Val  // KSlice used only as the variadic operand of append: explicit elements, no heap backing
+	Own   bool   // KSlice: backing array freshly allocated here and referenced by this value only
+	From  *Cell  // value was loaded from this local cell (provenance for move semantics)
 }
 
 type Closure struct {
